@@ -8,6 +8,7 @@ From Dimod Require Model.Samples Proofs.SamplesFacts Model.SSet Model.SSetVartyp
 From Dimod Require Model.ViewOps Proofs.ViewOpsFacts Model.HPolyPy Proofs.HPolyPyFacts Model.Expr Proofs.ExprFacts Model.VartypeOps Proofs.VartypeOpsFacts.
 From Dimod Require Gen.Gen_CppVartype Proofs.CppVartypeFacts Gen.Gen_SSetVartype Proofs.SSetVartypeGenFacts.
 From Dimod Require Gen.Gen_IsingQubo Model.IsingQuboGen Proofs.IsingQuboGenFacts Model.FlipMarks Proofs.FlipMarksFacts.
+From Dimod Require Gen.Gen_HPolyPy Proofs.HPolyPyGenFacts.
 Import ListNotations.
 Open Scope Qc_scope.
 
@@ -842,6 +843,22 @@ Theorem C02_cqm_flip_marks_elsewhere :
   ~ In v (Expr.e_vars (Expr.mc_e k)) -> nth j (FlipMarks.marks_view q') false = Expr.mc_mark k.
 Proof. exact FlipMarksFacts.py_cqm_flip_marks_elsewhere. Qed.
 Print Assumptions C02_cqm_flip_marks_elsewhere.
+
+
+(* polynomial.py to_binary / to_spin: bases of the powers generated by translators/poly_loops.py (which pins the loop shapes) *)
+Theorem C02_poly_to_binary_uses_source_constants :
+  forall (term : list nat) (bias : Qc) (t : list nat),
+  HPolyPy.to_binary_newbias term bias t =
+  bias * Gen_HPolyPy.gen_to_binary_base_pos ^ length t *
+  Gen_HPolyPy.gen_to_binary_base_neg ^ (length term - length t).
+Proof. exact HPolyPyGenFacts.to_binary_newbias_uses_source_constants. Qed.
+Print Assumptions C02_poly_to_binary_uses_source_constants.
+
+Theorem C02_poly_to_spin_uses_source_constants :
+  forall (term : list nat) (bias : Qc),
+  HPolyPy.to_spin_newbias term bias = bias / Gen_HPolyPy.gen_to_spin_base ^ length term.
+Proof. exact HPolyPyGenFacts.to_spin_newbias_uses_source_constants. Qed.
+Print Assumptions C02_poly_to_spin_uses_source_constants.
 
 
 Example C02_example :
